@@ -500,42 +500,41 @@ def _mask_fingerprint(tree, paths):
     return out
 
 
+def _addr_kind(r, p):
+    if r is None:
+        return "unresolved"
+    if r["chain"][-1][1] == "arg":
+        fn = r["chain"][-1][0]
+        kw = any(a is r["node"] for a in fn.args.kwonlyargs)
+        return ("method" if len(p) == 3 else "func") + ("-kwonly" if kw else "-arg")
+    return "module-assign" if len(p) == 1 else "class-attr"
+
+
 def oracles_sync_properties(op, S0, S1, out, stats):
     v = []
     stats["sp_ops"] = stats.get("sp_ops", 0) + 1
     tin, tout = _tree(S0.get(op["input"])), _tree(S0.get(op["output"]))
     if tin is None or tout is None:
         return v
+    ev = bool(op.get("eval"))
     in_paths = [a.split(".") for a, _ in op["pairs"]]
     out_paths = [b.split(".") for _, b in op["pairs"]]
     r_in = [resolver.resolve(tin, p) for p in in_paths]
     r_out = [resolver.resolve(tout, p) for p in out_paths]
     resolvable = all(r is not None for r in r_in) and all(r is not None for r in r_out)
-    addr_kinds = []
-    for r, p in zip(r_out, out_paths):
-        if r is None:
-            addr_kinds.append("unresolved")
-        elif r["chain"][-1][1] == "arg":
-            fn = r["chain"][-1][0]
-            kw = any(a is r["node"] for a in fn.args.kwonlyargs)
-            addr_kinds.append(("method" if len(p) == 3 else "func") + ("-kwonly" if kw else "-arg"))
-        elif len(p) == 1:
-            addr_kinds.append("module-assign")
-        else:
-            addr_kinds.append("class-attr")
+    addr_kinds = [_addr_kind(r, p) for r, p in zip(r_out, out_paths)]
     in_kinds = []
     for r, p in zip(r_in, in_paths):
-        if r is None:
-            in_kinds.append("unresolved")
-        elif r["chain"][-1][1] == "arg":
-            in_kinds.append("arg")
-        else:
-            in_kinds.append(type(r["node"]).__name__)
-    common = dict(addr=",".join(sorted(set(addr_kinds))), in_kind=",".join(sorted(set(in_kinds))), npairs=len(op["pairs"]),
-                  wrap=bool(op.get("wrap")), eval=bool(op.get("eval")), via=op.get("via", "cli"))
-    cell = "%s|%s|%d|%s|%s" % (common["addr"], common["in_kind"], common["npairs"], common["wrap"], common["eval"])
+        k = _addr_kind(r, p)
+        if r is not None and k in ("module-assign", "class-attr"):
+            k += ":" + type(r["node"]).__name__
+        in_kinds.append(k)
+    combos = ["%s>%s" % (i, o) for i, o in zip(in_kinds, addr_kinds)]
+    common = dict(combos=sorted(set(combos)), npairs=len(op["pairs"]), wrap=bool(op.get("wrap")), eval=ev, via=op.get("via", "cli"))
     stats.setdefault("sp_cells", {})
-    stats["sp_cells"][cell] = stats["sp_cells"].get(cell, 0) + 1
+    for c in combos:
+        cell = "%s|wrap=%s|eval=%s|pairs=%d" % (c, common["wrap"], ev, common["npairs"])
+        stats["sp_cells"][cell] = stats["sp_cells"].get(cell, 0) + 1
     # input bytes invariant, always
     if S0.get(op["input"]) != S1.get(op["input"]):
         v.append(viol("C14", "I-input-modified", op, "the input file was modified", **common))
@@ -545,7 +544,7 @@ def oracles_sync_properties(op, S0, S1, out, stats):
         if S0.get(op["output"]) != S1.get(op["output"]):
             v.append(viol("C14", "E-unresolved-changed-output", op, "an address did not resolve, yet the output file changed", **common))
         return v
-    if op.get("eval") and any(len(p) > 1 for p in in_paths):
+    if ev and any(len(p) > 1 for p in in_paths):
         return v  # documented limitation: eval mode only supports top-level input names
     if out["status"] != "ok":
         v.append(viol("C14", "A-resolvable-rejected", op, "every address resolves, yet sync_properties failed: %s %s at %s" % (out.get("exc", out.get("code")), out.get("msg", "")[:160], out.get("site")),
@@ -562,17 +561,21 @@ def oracles_sync_properties(op, S0, S1, out, stats):
         v.append(viol("C14", "P-unparseable", op, "the output file does not parse after sync_properties", **common))
         return v
     stats["sp_checked"] = stats.get("sp_checked", 0) + 1
-    if _mask_fingerprint(tout, out_paths) != _mask_fingerprint(t_after, out_paths):
+    # Without eval the addressed node is replaced by the input's node *including its name* (this is what the suite's
+    # golden files show: `h: Literal['b']` becomes `f: Literal['a']`); with eval the output keeps its name.
+    after_paths = [opath if ev else opath[:-1] + [ip[-1]] for ip, opath in zip(in_paths, out_paths)]
+    if _mask_fingerprint(tout, out_paths) != _mask_fingerprint(t_after, after_paths):
         v.append(viol("C14", "M-other-nodes-changed", op, "nodes other than the addressed ones changed in the output file", **common))
     # every pair applied: the node at each output address now carries the input's annotation
-    for (a, b), ip, opath, ri in zip(op["pairs"], in_paths, out_paths, r_in):
-        ra = resolver.resolve(t_after, opath)
+    for (a, b), ip, opath, apath, ri, combo in zip(op["pairs"], in_paths, out_paths, after_paths, r_in, combos):
+        pc = dict(common, combo=combo)
+        ra = resolver.resolve(t_after, apath)
         if ra is None:
-            v.append(viol("C14", "N-address-gone", op, "address %s no longer resolves in the output file" % b, **common))
+            v.append(viol("C14", "N-address-gone", op, "after the rewrite nothing resolves at %s (the place of %s)" % (".".join(apath), b), **pc))
             continue
-        want = _annotation_of(ri["node"]) if not op.get("eval") else None
+        want = _annotation_of(ri["node"]) if not ev else None
         have = _annotation_of(ra["node"])
-        if op.get("eval"):
+        if ev:
             vals = _eval_top(S0.get(op["input"]), a)
             if vals is not None:
                 want = "Literal[%s]" % ", ".join(repr(x) for x in vals)
@@ -584,7 +587,7 @@ def oracles_sync_properties(op, S0, S1, out, stats):
             except Exception:
                 continue
         if have is None or _ws(have) != _ws(want):
-            v.append(viol("C14", "N-annotation", op, "address %s carries annotation %r, expected %r from %s" % (b, have, want, a), **common))
+            v.append(viol("C14", "N-annotation", op, "%s carries annotation %r, expected %r from %s" % (".".join(apath), have, want, a), **pc))
     return v
 
 
